@@ -12,7 +12,7 @@ RULE = ("32-byte seeds (RFC 8032 section 7.1 vectors, all-zero / all-ones, seede
         "transcription of RFC 8032; every conversion path among bytes / hex / key objects; key files; equivalence laws; malformed encodings "
         "(every wrong length around 32/64, case, whitespace, every other kind).  non-trivial = a seed/message pair; distinct by (seed, message)")
 
-THEOREMS = ["hex_roundtrip", "bytes_roundtrip", "from_hex_to_hex", "from_hex_rejects", "from_bytes_rejects_length", "equivalence_laws", "signing_key_hex"]
+THEOREMS = ["hex_roundtrip", "bytes_roundtrip", "from_hex_to_hex", "from_hex_rejects", "from_bytes_rejects_length", "equivalence_laws", "signing_key_hex", "keyfiles_roundtrip", "keyfiles_reject_length"]
 
 # RFC 8032 section 7.1 (secret key, public key, message, signature)
 RFC8032 = [
